@@ -414,6 +414,43 @@ def run_cf(case, log, stats):
 # ------------------------------------------------------------------------------------------------
 
 
+def gen_cf_big(rng, tier):
+    """one large component built root-to-root in a strict order: paths that no operation ever compresses, then a query at the deep end"""
+    n = rng.choice([1200, 2500, 5000])
+    order = rng.choice(["descending", "ascending", "descending"])
+    return {"kind": "cf-big", "n": n, "order": order, "probe": rng.choice(["deep", "deep", "middle", "shallow"]), "knobs": {"n": n, "order": order}, "ops": []}
+
+
+def run_cf_big(case, log, stats):
+    from whatshap.graph import ComponentFinder
+
+    n = case["n"]
+    cf = ComponentFinder(range(n))
+    if case["order"] == "descending":
+        for i in range(n - 1, 0, -1):
+            cf.merge(i, i - 1)
+    else:
+        for i in range(n - 1):
+            cf.merge(i, i + 1)
+    stats.inc("op_merge", n - 1)
+    probe = {"deep": n - 1, "middle": n // 2, "shallow": 1}[case["probe"]]
+    viol = []
+    try:
+        got = cf.find(probe)
+    except RecursionError as e:
+        return [violation("cf-exception", "find(%d) on a chain of %d values merged in %s order raised RecursionError" % (probe, n, case["order"]), "cf-exception:RecursionError")], 1
+    if got != 0:
+        viol.append(violation("cf-representative", "find(%d) on a chain of %d values returned %r, the minimum of the component is 0" % (probe, n, got), "cf-representative"))
+    else:
+        for v in (0, 1, n // 3, n - 2, n - 1):
+            if cf.find(v) != 0:
+                viol.append(violation("cf-representative", "find(%d)=%r on a fully merged chain of %d values" % (v, cf.find(v), n), "cf-representative"))
+                break
+    stats.inc("cf_big_chains")
+    log.add("big", [n, case["order"], case["probe"]])
+    return viol, 2
+
+
 def gen_multi(rng, tier):
     """two or three live instances of the same class over overlapping domains, operated in turn"""
     which = rng.choice(["cf", "cf", "pq"])
@@ -582,6 +619,8 @@ class AdtEngine(Engine):
 
     def gen(self, prop, rng, tier):
         x = rng.random()
+        if x < 0.002:
+            return gen_cf_big(rng, tier)
         if x < 0.62:
             return gen_pq(rng, tier)
         if x < 0.9:
@@ -595,6 +634,9 @@ class AdtEngine(Engine):
             if case["kind"] == "pq":
                 viol, nstates = run_pq(case, log, stats)
                 stats.inc("pq_histories")
+            elif case["kind"] == "cf-big":
+                viol, nstates = run_cf_big(case, log, stats)
+                stats.inc("cf_histories")
             elif case["kind"] == "multi":
                 viol, nstates = run_multi(case, log, stats)
                 stats.inc("multi_instance_histories")
